@@ -67,29 +67,44 @@ def files_once(exe, case):
     return genlib.decode(vf.run_filter([exe, "files"], [enc(case)], shards=1)[0])
 
 
-def norm_path(p):
+def world_name(wit):
+    m = re.findall(r"(?<![a-z0-9%-])world\s+%?([a-z][a-z0-9-]*)\s*\{", L.strip_wit_comments(wit))
+    return m[-1] if m else None
+
+
+def norm_path(p, world=None):
+    """File name with everything that depends on the names chosen in the WIT text abstracted away, so that the key names
+    the emission point: the world's name (kebab, snake, UpperCamel, lowerCamel) becomes <world>; interface/package path
+    components become **."""
+    if world:
+        parts = world.split("-")
+        variants = {world, "_".join(parts), "".join(x.capitalize() for x in parts), parts[0] + "".join(x.capitalize() for x in parts[1:])}
+        for v in sorted(variants, key=len, reverse=True):
+            p = re.sub(r"(?<![A-Za-z0-9<])%s(?![a-z0-9>])" % re.escape(v), "<world>", p)
+    p = re.sub(r"World\.wit\.(Imports|Exports|imports|exports)\..*?(Interop)?\.cs$", r"World.wit.\1.**\2.cs", p)
     parts = p.split("/")
-    if len(parts) <= 2:
-        return p if len(parts) == 1 else parts[0] + "/" + parts[1] if parts[0] in ("gen",) else "*/" + parts[-1]
-    return parts[0] + "/**/" + parts[-1]
+    if len(parts) > 2:
+        return parts[0] + "/**/" + parts[-1]
+    return p
 
 
-def classify(lang, a, b):
+def classify(lang, wit, a, b):
     """Stable key(s) for the difference between two outputs ('ok', {name: content}) of the same case."""
     if a[0] != b[0]:
         return ["%s:outcome:%s-vs-%s" % (lang, a[0], b[0])]
     if a[0] != "ok":
         return [] if a[1] == b[1] else ["%s:message-differs" % lang]
     fa, fb = a[1], b[1]
+    w = world_name(wit)
     keys = set()
     for n in sorted(set(fa) | set(fb)):
         if n not in fa or n not in fb:
-            keys.add("%s:%s:file-set" % (lang, norm_path(n)))
+            keys.add("%s:%s:file-set" % (lang, norm_path(n, w)))
         elif fa[n] != fb[n]:
             xa = fa[n] if isinstance(fa[n], str) else fa[n].hex()
             xb = fb[n] if isinstance(fb[n], str) else fb[n].hex()
             kind = "reorder" if sorted(xa.split("\n")) == sorted(xb.split("\n")) else "content"
-            keys.add("%s:%s:%s" % (lang, norm_path(n), kind))
+            keys.add("%s:%s:%s" % (lang, norm_path(n, w), kind))
     return sorted(keys)
 
 
@@ -98,7 +113,7 @@ def differs(exe, case, tries=8):
     first = files_once(exe, case)
     for _ in range(tries - 1):
         o = files_once(exe, case)
-        k = classify(case[0], first, o)
+        k = classify(case[0], case[3], first, o)
         if k:
             return k, (first, o)
     return [], None
@@ -167,6 +182,8 @@ def run(ctx):
     for name, text, path in L.codegen_corpus():
         if not os.path.isdir(path):
             worlds.append(("codegen", name, text))
+    for name, text in W.determinism_worlds():
+        worlds.append(("directed-hash-sites", name, text))
     directed = W.directed_worlds()
     if quick:
         r2 = ctx.rng.fork(151)
